@@ -138,7 +138,8 @@ def check_doc(et_doc, lib, tmp, use_write, viol, c, obj=None):
     return 'violated' if bad else 'ok'
 
 
-MARKUP = ['a&b', 'x<y', 'p>q', 'say "hi"', "it's", 'https://example.org/i.png?id=7&size=2', '&amp;', '<![CDATA[x]]>', 'a & b < c']
+MARKUP = ['a&b', 'x<y', 'p>q', 'say "hi"', "it's", 'https://example.org/i.png?id=7&size=2', '&amp;', '<![CDATA[x]]>', 'a & b < c',
+          'two  blanks', 'line\nbreak', 'tab\tinside', 'Sonata  No. 1\n\tfor piano']
 
 
 def spice(el, rnd, p=0.35):
@@ -150,7 +151,7 @@ def spice(el, rnd, p=0.35):
             for an, at, req in ref.attr_table(t):
                 if an in node.attrib and at is not None and rnd.random() < p:
                     v = rnd.choice(MARKUP)
-                    if ref.valid(at, v) and v == ' '.join(v.split()):
+                    if ref.valid(at, v) and v == ' '.join(v.split()):   # attribute values are normalised by any XML parser
                         node.set(an, v)
                         n += 1
         sb = (ref.simple_base(t) if t in ref.ALL else t)
